@@ -50,6 +50,9 @@ TEXT = {
  "C05": ("deterministic simulation with reference peer nodes: refinement of recorded exchanges against an independent strict codec of the three protocols",
          "Refinement against an executable reference model driven by seeded program generation; scheduling and segmentation vary but are not what the property turns on (honest note). Only table entries that are stable across every published protocol revision are asserted exactly.",
          "5 C05"),
+ "C08": ("deterministic simulation of call histories over shared (de)compressor pools with corrupt payloads and injected compressor failures; oracle from the raw exchange via the reference codec",
+         "Seeded search over algorithm sets/orders x thresholds x sizes x protocols x kinds and over histories (sequences and interleavings) of valid and corrupt calls on shared pools made deterministic (LIFO) by the verif hooks, so that reuse of an instance after a failed call is guaranteed rather than left to sync.Pool.",
+         "5 C08"),
 }
 
 hooks_commits = subprocess.run(["git", "-C", "/repo", "log", "--format=%H", "--grep=^verif:"], capture_output=True, text=True).stdout.split()
